@@ -1,6 +1,7 @@
 package props
 
 import (
+	"runtime"
 	"encoding/json"
 	"fmt"
 	"os"
@@ -99,6 +100,12 @@ func bubbleOutcome(t *testing.T, seed uint64, sched []uint16, body func(w *World
 	if pv != nil {
 		if o != nil && o.Violation != "" {
 			return o
+		}
+		if os.Getenv("VERIF_DUMP_ON_BUBBLE_PANIC") != "" {
+			buf := make([]byte, 1<<20)
+			n := runtime.Stack(buf, true)
+			fmt.Fprintf(os.Stderr, "bubble panic: %v\n%s\n", pv, buf[:n])
+			os.Exit(3)
 		}
 		return &Outcome{Harness: fmt.Sprintf("bubble panic: %v", pv), LogHash: 0}
 	}
